@@ -272,6 +272,9 @@ def generate(ch, profile):
         cfg["turn_refresh"] = {"side": ch.choice("cfg", ["A", "B"]), "nth": ch.choice("cfg", [3, 6, 10, 20, 40, 80]),
                                "dur": ch.choice("cfg", [0.005, 0.05, 0.3])}
     cfg["lifecycle"] = profile in ("c01", "c02") and ch.chance("cfg", 0.2)
+    if profile == "c13" and ch.chance("cfg", 0.3):
+        # a bufferedamountlow listener that sends more (up to three times per channel end)
+        cfg["refill_on_low"] = ch.choice("cfg", [1, 500, 1200, 3000])
     # SCTP ports of the two ends (the default 5000/5000 in most runs)
     cfg["ports"] = ch.choice("cfg", [[5000, 5000], [5000, 5000], [5000, 5000], [5001, 5002], [1, 65535], [6000, 5000]])
     nchan = ch.choice("wl", [1, 1, 2, 2, 3, 4, 5])
@@ -377,6 +380,7 @@ class ChanModel:
         # bufferedAmount model per side
         self.accepted = {"A": deque(), "B": deque()}   # (lo, hi) per queued message
         self.low_events = {"A": 0, "B": 0}
+        self.refills = {"A": 0, "B": 0}
         self.low_expected = {"A": 0, "B": 0}
         self.low_ambiguous = {"A": False, "B": False}
         self.model_amount = {"A": [0, 0], "B": [0, 0]}  # [lo, hi]
@@ -602,6 +606,12 @@ class World:
 
         def on_low(model=model, side=side):
             model.low_events[side] += 1
+            if (self.cfg.get("refill_on_low") and model.refills[side] < 3 and self.sendable(model, side)
+                    and not model.tag.startswith("r") and self.phase in ("faults", "healed")):
+                # the usual refill pattern: the listener sends more, from inside the event
+                model.refills[side] += 1
+                self.probes["refill_sends_from_low_event"] += 1
+                self._op_send(model.tag, side, "bytes", self.cfg["refill_on_low"])
 
         chan.on("message", on_message)
         chan.on("open", on_open)
@@ -1011,7 +1021,11 @@ class World:
         msg = make_payload(tag, side, k, kind, size)
         chan = model.obj[side]
         try:
-            self.ctx[side].run(chan.send, msg)
+            from ..loop import NODE
+            if NODE.get() == side:
+                chan.send(msg)              # called from within this endpoint's own context (an event listener)
+            else:
+                self.ctx[side].run(chan.send, msg)
         except Exception as exc:  # noqa
             self.violation("C13", "send-raised-on-open-channel:" + exc_tag(exc), repr(exc))
             return False
